@@ -10,6 +10,7 @@ pub mod c06;
 pub mod c07;
 pub mod c08;
 pub mod c09;
+pub mod c10;
 pub mod c11;
 pub mod c12;
 pub mod c13;
@@ -33,6 +34,7 @@ pub fn run(id: &str, tier: Tier) -> i32 {
         "C07" => c07::run(tier),
         "C08" => c08::run(tier),
         "C09" => c09::run(tier),
+        "C10" => c10::run(tier),
         "C11" => c11::run(tier),
         "C12" => c12::run(tier),
         "C13" => c13::run(tier),
@@ -63,6 +65,7 @@ pub fn replay(id: &str, path: &str) -> i32 {
             "C07" => c07::replay(case),
             "C08" => c08::replay(case),
             "C09" => c09::replay(case),
+            "C10" => c10::replay(case),
             "C11" => c11::replay(case),
             "C12" => c12::replay(case),
             "C13" => c13::replay(case),
